@@ -74,7 +74,7 @@ def parse_unit(path):
                 continue
             if block is not None and block[0] == "raw" and not d.split()[0] in (
                     "unit", "prelude", "specs", "from", "take", "stub", "contract", "loop", "hint", "replace", "raw",
-                    "obligation", "canary", "derive_eq", "include", "desugar_enumerate", "mut_self", "block", "replace_macro"):
+                    "obligation", "canary", "derive_eq", "include", "desugar_enumerate", "mut_self", "block", "replace_macro", "verify_only"):
                 continue
             block = None
             cur_label = None
@@ -142,6 +142,10 @@ def parse_unit(path):
                 if not m:
                     raise BuildError("%s:%d bad obligation directive" % (path, ln))
                 u.labels[m.group(1)] = dict(props=m.group(2).split(","), desc=m.group(3))
+            elif w[0] == "verify_only":
+                # the unit exists for ONE function/lemma (everything else in it is vocabulary verified by another unit):
+                # `verus --verify-function NAME --verify-root`
+                u.verify_only = w[1]
             elif w[0] == "canary":
                 u.canary = w[1]
                 u.canaries = getattr(u, "canaries", []) + w[1:]
@@ -1080,6 +1084,7 @@ def build(unit_path, out_dir, canary=False, repo=None):
              extraction=extraction, labels=u.labels,
              fnprops={k: c["props"] for k, c in u.contracts.items()}, canary=u.canary,
              canaries=getattr(u, "canaries", []),
+             verify_only=getattr(u, "verify_only", None),
              prelude=u.prelude, specs=u.specs, contracts=sorted(u.contracts.keys()),
              loops=sorted("%s#%d" % k for k in u.loops.keys()))
     with open(os.path.join(out_dir, u.name + suffix + ".map.json"), "w") as f:
